@@ -250,6 +250,7 @@ def _replay(ctx, binp, scripts, env, nontrivial):
             if again == 2:
                 ctx.violation(what + " (deadline missed 3 times)", dict(behaviour=beh, disagreement=r))
             else:
+                ctx.save_text("deadline_miss_%s.json" % r.get("i"), json.dumps(dict(behaviour=beh, disagreement=r), indent=1))
                 ctx.broken("deadline miss not reproducible (%d/3), machine overloaded? %s" % (again + 1, what))
         else:
             ctx.violation(what, dict(behaviour=beh, disagreement=r))
